@@ -159,6 +159,24 @@ func TestC10_SlowConsumers(t *testing.T) {
 		}
 		// 3. the stream
 		total := rapid.IntRange(0, 4*kcache.EventBufsiz).Draw(t, "events")
+		// now and then a very long stream (up to 150 buffers, 600 in the thorough tier; its events come
+		// from a seeded sequence, not from thousands of draws): however long a consumer stays away, it
+		// is merely behind - still subscribed, its buffer still delivered, fresh events still reaching it
+		long := false
+		var lcg uint64
+		if rapid.IntRange(0, 19).Draw(t, "longStream") == 0 {
+			sizes := []int{5, 12, 30, 60, 110, 150}
+			if tierThorough() {
+				sizes = append(sizes, 300, 600)
+			}
+			total = kcache.EventBufsiz * rapid.SampledFrom(sizes).Draw(t, "longBuffers")
+			long = true
+			lcg = rapid.Uint64().Draw(t, "streamSeed") | 1
+		}
+		pick := func(n int) int {
+			lcg = lcg*6364136223846793005 + 1442695040888963407
+			return int((lcg >> 33) % uint64(n))
+		}
 		var ref []string
 		rootBase := w.nodes[0].eventCount()
 		// one stalled plain subscriber may be CLOSED in the middle of a burst (its buffer possibly full,
@@ -185,8 +203,22 @@ func TestC10_SlowConsumers(t *testing.T) {
 						}
 					}
 				}
-				k := rapid.SampledFrom(keys).Draw(t, "k")
-				if w.api.has(k[0], k[1]) && rapid.IntRange(0, 3).Draw(t, "del") == 0 {
+				var k [2]string
+				var del bool
+				var lbl map[string]string
+				if long {
+					k, del = keys[pick(len(keys))], pick(4) == 0
+					if x := pick(3); x > 0 {
+						lbl = map[string]string{"x": fmt.Sprint(x)}
+					}
+				} else {
+					k = rapid.SampledFrom(keys).Draw(t, "k")
+					del = w.api.has(k[0], k[1]) && rapid.IntRange(0, 3).Draw(t, "del") == 0
+					if !del {
+						lbl = drawLabels(t)
+					}
+				}
+				if del && w.api.has(k[0], k[1]) {
 					w.del(k[0], k[1])
 					ref = append(ref, fmt.Sprintf("delete %s/%s@%d", k[0], k[1], w.api.rvNow()))
 				} else {
@@ -194,11 +226,19 @@ func TestC10_SlowConsumers(t *testing.T) {
 					if w.api.has(k[0], k[1]) {
 						typ = "update"
 					}
-					w.put(k[0], k[1], drawLabels(t))
+					w.put(k[0], k[1], lbl)
 					ref = append(ref, fmt.Sprintf("%s %s/%s@%d", typ, k[0], k[1], w.api.rvNow()))
 				}
 			}
 			sent += n
+			if long && (sent/burst)%16 != 0 {
+				// (long streams: the full set of per-burst checks every 16th burst; otherwise a barrier for
+				// the healthy nodes and the wait for the stalled filtered subscriptions' caches, which also
+				// paces the stream for them - their own intake has one buffer like everybody's)
+				w.barrier()
+				cachesCurrent()
+				continue
+			}
 			// "never blocks the controller, the caches, the publishers": with every goroutine parked, none
 			// may be parked inside a hand-over of an event towards a consumer (a publisher or the
 			// controller waiting in send(), a distribute loop) - however full the stalled ones' buffers are
@@ -291,6 +331,16 @@ func TestC10_SlowConsumers(t *testing.T) {
 				late = append(late, lateSet{v, from, v.witness.eventCount()})
 			}
 		}
+		// one stalled plain subscriber may stay stalled to the very end and meet the controller's shutdown
+		// with its buffer unread (judged at the end: C11's "closed after any buffered events")
+		var keep *victim
+		for vi, v := range victims {
+			if v.n.kind == "sub" && cfg.typed == "" && rapid.IntRange(0, 3).Draw(t, "keepStalledUntilShutdown") == 0 {
+				keep = v
+				victims = append(victims[:vi:vi], victims[vi+1:]...)
+				break
+			}
+		}
 		// 5. release the stalled consumers and judge what they hold
 		overBuf := false
 		// (the events published while victims resume are not paced by barriers: their total stays well
@@ -368,6 +418,24 @@ func TestC10_SlowConsumers(t *testing.T) {
 			}
 		}
 		w.checkQuiet()
+		if keep != nil {
+			// everything published has been distributed (barrier above): the consumer holds min(sent, buffer)
+			// unread events.  The controller is closed; the consumer's Done() must close regardless; then it
+			// resumes and must find those events, and only behind them the closed channel
+			wTotal := keep.witness.totalCount() - keep.base
+			want := min(wTotal, kcache.EventBufsiz)
+			done := make(chan struct{})
+			go func() { w.root.Close(); close(done) }()
+			w.waitFor(done, "root Close() returning")
+			w.waitFor(w.root.Done(), "root Done() after Close()")
+			w.waitFor(keep.n.doneCh(), fmt.Sprintf("Done() of %s (its consumer is not reading) after the controller was closed", keep.n.path()))
+			w.unstallNode(keep.n)
+			w.waitFor(keep.n.eof, fmt.Sprintf("Events() of %s being closed after the controller was closed", keep.n.path()))
+			if got := keep.n.totalCount() - keep.vbase; got < want {
+				w.fail("subscriber %s held %d unread events in its buffer (%d were sent to it while it was not reading) when the controller was closed; it then became Done and its Events() channel was closed after only %d of them: buffered events were discarded by the shutdown", keep.n.path(), want, wTotal, got)
+			}
+			statLabel("C10", "stalled_subscriber_met_the_shutdown_with_a_full_buffer", 1)
+		}
 		w.finish()
 		healthySibling := false
 		for _, v := range victims {
@@ -392,6 +460,6 @@ func TestC10_SlowConsumers(t *testing.T) {
 		}
 		statCase("C10", hashString(strings.Join(w.hist, ";")), nt, func() interface{} {
 			return map[string]interface{}{"nodes": len(w.nodes), "stalled": vkinds, "events": total, "history_head": hist}
-		}, fmt.Sprintf("refiltered_a_stalled_filtered_subscription=%v", refilteredStalled), fmt.Sprintf("stalled=%d", min(len(victims), 3)), fmt.Sprintf("partial_resume_after_overflow=%v", partial), fmt.Sprintf("resumed_while_events_kept_coming=%v", underLoad), fmt.Sprintf("stream_over_buffer=%v", total > kcache.EventBufsiz), fmt.Sprintf("closed_a_stalled_subscriber_mid_burst=%v", closedVictim), "typed_tree="+cfg.typed)
+		}, fmt.Sprintf("refiltered_a_stalled_filtered_subscription=%v", refilteredStalled), fmt.Sprintf("stalled=%d", min(len(victims), 3)), fmt.Sprintf("partial_resume_after_overflow=%v", partial), fmt.Sprintf("resumed_while_events_kept_coming=%v", underLoad), fmt.Sprintf("stream_over_buffer=%v", total > kcache.EventBufsiz), fmt.Sprintf("closed_a_stalled_subscriber_mid_burst=%v", closedVictim), fmt.Sprintf("long_stream_of_5_to_600_buffers=%v", long), "typed_tree="+cfg.typed)
 	})
 }
